@@ -199,4 +199,8 @@ def cached_node_property(name):''')]),
     dict(name="twin: sort always resets first", kind="twin", file=CORE,
          old="        if reset:\n            self.reset_contraction_indices()\n        else:\n            # keep the current index orders as the starting point, but drop\n            # everything derived from them, which the re-sorting invalidates\n            for node in self.children:\n                for k in (\"einsum_eq\", \"tensordot_axes\", \"tensordot_perm\"):\n                    self.info[node].pop(k, None)\n",
          new="        self.reset_contraction_indices()\n"),
+    dict(name="round4: selector located with term.index", kind="break", file=CORE,
+         old="            selector = tuple(\n                locations.get(ix, slice(None)) for ix in self.inputs[c]\n            )\n            # re-insert the sliced array\n            temp_arrays[c] = temp_arrays[c][selector]",
+         new="            term = self.inputs[c]\n            selector = [slice(None)] * len(term)\n            for ix, loc in locations.items():\n                if ix in term:\n                    selector[term.index(ix)] = loc\n            temp_arrays[c] = temp_arrays[c][tuple(selector)]",
+         expect=("C02-SLICEARR", "selector")),
 ]
